@@ -10,6 +10,7 @@ from liquid2 import Node
 from liquid2 import Tag
 from liquid2 import TagToken
 from liquid2 import TokenStream
+from liquid2.builtin.expressions import identifier_as_source
 from liquid2.builtin import parse_string_or_identifier
 from liquid2.exceptions import LiquidSyntaxError
 
@@ -31,7 +32,7 @@ class IncrementNode(Node):
 
     def __str__(self) -> str:
         assert isinstance(self.token, TagToken)
-        return f"{{%{self.token.wc[0]} increment {self.name} {self.token.wc[1]}%}}"
+        return f"{{%{self.token.wc[0]} increment {identifier_as_source(self.name)} {self.token.wc[1]}%}}"
 
     def render_to_output(self, context: RenderContext, buffer: TextIO) -> int:
         """Render the node to the output buffer."""
